@@ -1,10 +1,13 @@
 \* quick, exhaustive: every chain of at most 2 child/edge items (with and without root Index) from
-\* every reference of dimension <= 3, rewritten by canonical, uppermost and promote (every ndims),
-\* and every result rewritten once more (chains with ScaledUpdim / Identity items)
+\* every reference of dimension <= 3 and of at most 3 items from every reference of dimension <= 2,
+\* rewritten by canonical, uppermost and promote (every ndims); results that contain ScaledUpdim /
+\* Identity items are rewritten once more
 SPECIFICATION Spec
 CONSTANTS
   MaxDim = 3
   MaxLen = 2
+  LongDim = 2
+  LongLen = 3
   MaxRounds = 1
   WrongSwap = FALSE
 INVARIANT MapPreserved
